@@ -36,7 +36,10 @@ def main(argv):
             mod = importlib.import_module("hsverif.checks." + rep["property"].lower())
             return mod.replay(rep)
         mod = importlib.import_module("hsverif.checks." + cmd.lower())
-        return mod.main(tier)
+        rc = mod.main(tier)
+        from . import env
+        env.check_escapes()
+        return rc
     except common.SetupFailure as e:
         return _as_violation(cmd, tier, "a preparatory call on the store did not succeed: %s" % e, str(e))
     except common.HarnessError as e:
